@@ -1,5 +1,6 @@
 (* Properties_C01.v — property C01: the collector never reclaims a reachable object and every
-   collection terminates.  Only statements closed by `exact`, each followed by Print Assumptions. *)
+   collection terminates.  Only statements closed by `exact`, each followed by Print Assumptions.
+   The switches gc_tls_recurses / gc_mar_guarded come from Generated.v (read off src/GC.c). *)
 From CelloV Require Import Generated HeapGraph MarkSweep MarkSweepProofs MarkSource.
 
 (* the model's two switches and the transcribed function bodies agree with the C text *)
@@ -8,6 +9,65 @@ Theorem mark_model_matches_source :
 Proof. exact MarkSource.source_switches. Qed.
 Print Assumptions mark_model_matches_source.
 
+(* (1) after the mark phase every registered object reachable from the TLS values, the
+   root-flagged entries or the stack words is marked — any heap, any fuel that sufficed *)
+Theorem mark_complete : forall h rg minptr maxptr order tls stack fuel m',
+  range_ok rg minptr maxptr -> order_ok rg order ->
+  mark gc_tls_recurses gc_mar_guarded h rg minptr maxptr fuel order tls stack nempty = Ok m' ->
+  forall q, registered rg q = true -> reach h rg tls stack q -> marked m' q = true.
+Proof. exact MarkSweepProofs.mark_complete_thm. Qed.
+Print Assumptions mark_complete.
+
+(* (2) the sweep frees exactly the unmarked non-root entries, each once *)
+Theorem sweep_frees_only_unmarked_nonroot : forall rg order m rg' fin,
+  sweep rg order m = (rg', fin) ->
+  (forall p, In p fin <-> In p order /\ registered rg p = true /\ is_root rg p = false /\ marked m p = false) /\
+  (forall p, registered rg' p = true <-> registered rg p = true /\ ~ In p fin) /\
+  (NoDup order -> NoDup fin).
+Proof. exact MarkSweepProofs.sweep_frees_only_unmarked_nonroot_thm. Qed.
+Print Assumptions sweep_frees_only_unmarked_nonroot.
+
+(* (4) the fuel the model supplies is never exhausted and nothing crashes: every collection
+   runs to completion (raw_wf excludes only cycles among RAW objects behind Tuple items) *)
+Theorem mark_fuel_adequate : forall h rg minptr maxptr order tls stack,
+  range_ok rg minptr maxptr -> order_ok rg order -> wf h rg tls -> raw_wf h rg ->
+  exists m', mark gc_tls_recurses gc_mar_guarded h rg minptr maxptr (fuel_of h rg order) order tls stack nempty = Ok m'.
+Proof. exact MarkSweepProofs.mark_fuel_adequate_thm. Qed.
+Print Assumptions mark_fuel_adequate.
+
+(* (3) the property: a collection terminates, frees no registered object that is reachable,
+   keeps every root-flagged entry, frees only registered non-root entries, each once *)
+Theorem collect_safe : forall h rg minptr maxptr order tls stack,
+  range_ok rg minptr maxptr -> order_ok rg order -> wf h rg tls -> raw_wf h rg ->
+  exists rg' fin,
+    collect gc_tls_recurses gc_mar_guarded h rg minptr maxptr (fuel_of h rg order) order tls stack = Ok (rg', fin) /\
+    (forall p, registered rg p = true -> reach h rg tls stack p -> ~ In p fin /\ registered rg' p = true) /\
+    (forall p, is_root rg p = true -> ~ In p fin /\ registered rg' p = true) /\
+    (forall p, In p fin -> registered rg p = true /\ is_root rg p = false) /\
+    NoDup fin.
+Proof. exact MarkSweepProofs.collect_safe_thm. Qed.
+Print Assumptions collect_safe.
+
+(* non-vacuity of the hypotheses: a heap with a cycle through an Array of Ref, a shared Box, a
+   Tuple leading through a raw object, a TLS root, a stack root and one unreachable object;
+   exactly the unreachable one is freed *)
+Example collect_safe_hypotheses_inhabited :
+  range_ok ex_reg w8 w56 /\ order_ok ex_reg ex_order /\ wf ex_heap ex_reg ex_tls /\ raw_wf ex_heap ex_reg /\
+  (forall p, In p (cons w8 (cons w16 (cons w24 (cons w32 (cons w40 nil))))) -> reach ex_heap ex_reg ex_tls ex_stack p) /\
+  exists rg', collect gc_tls_recurses gc_mar_guarded ex_heap ex_reg w8 w56 (fuel_of ex_heap ex_reg ex_order)
+                ex_order ex_tls ex_stack = Ok (rg', cons w56 nil).
+Proof.
+  exact (conj ex_range (conj ex_order_ok (conj ex_wf (conj ex_raw_wf (conj ex_reach_all ex_collect))))).
+Qed.
+
+(* the excluded case: raw objects forming a cycle through Tuple items make the (repaired)
+   mark phase diverge — no mark bit can stop it *)
+Theorem mark_diverges_on_raw_tuple_cycle :
+  ~ raw_wf rawcyc_heap rawcyc_reg /\
+  forall fuel, mark gc_tls_recurses gc_mar_guarded rawcyc_heap rawcyc_reg w8 w8 fuel (cons w8 nil) nil (cons w8 nil) nempty = OutOfFuel.
+Proof. exact (conj MarkSweepProofs.rawcyc_not_raw_wf MarkSweepProofs.rawcyc_mark_diverges). Qed.
+Print Assumptions mark_diverges_on_raw_tuple_cycle.
+
 (* D16 (before the repair): an object reachable only from a thread-local value is freed *)
 Theorem tls_item_callback_refuted :
   reach d16_heap d16_reg d16_tls nil w8 /\
@@ -15,7 +75,7 @@ Theorem tls_item_callback_refuted :
 Proof. exact (conj MarkSweepProofs.d16_reachable MarkSweepProofs.d16_freed_pre). Qed.
 Print Assumptions tls_item_callback_refuted.
 
-(* D17 (before the repair): marking a heap Tuple that contains itself never terminates *)
+(* D17 (before the repair): marking a registered heap Tuple that contains itself never terminates *)
 Theorem unguarded_recurse_refuted : forall fuel,
   mark true false d17_heap d17_reg w8 w8 fuel (cons w8 nil) nil (cons w8 nil) nempty = OutOfFuel.
 Proof. exact MarkSweepProofs.d17_mark_diverges. Qed.
